@@ -378,3 +378,33 @@ package dnsserver
 //@   requires poolCap(s.reqPool) >= 65535
 //@   modifies stamped, allelems(byte)
 //@   ensures err == nil ==> m != nil
+
+// DoH: the wire message is a freshly allocated slice (request body or decoded
+// query parameter).
+
+//@ func httpRequestToMsgPost
+//@   property C06
+//@   requires req != nil && req.Body != nil
+//@   modifies stamped
+//@   ensures own-bytes-only: err == nil ==> off(b) + len(b) <= stamped[arr(b)]
+
+//@ func httpRequestToMsgGet
+//@   property C06
+//@   requires req != nil && req.URL != nil
+//@   modifies stamped
+//@   ensures own-bytes-only: err == nil ==> off(b) + len(b) <= stamped[arr(b)]
+
+// isDoH only classifies the request path (bounded stand-in territory: string
+// handling); httpRequestToMsgJSON packs a message built from the query
+// parameters into a fresh slice.
+//@ func isDoH
+//@   modifies nothing
+//@ func httpRequestToMsgJSON
+//@   modifies stamped
+//@   ensures err == nil ==> off(b) + len(b) <= stamped[arr(b)]
+
+//@ func httpRequestToMsg
+//@   property C06
+//@   requires req != nil && req.URL != nil && req.Body != nil
+//@   modifies stamped
+//@   ensures own-bytes-only: err == nil ==> off(b) + len(b) <= stamped[arr(b)]
